@@ -1621,6 +1621,10 @@ func (t *tr) block(stmts []ast.Stmt, k cont) string {
 				}
 			}
 		}
+		// for k, v := range X { acc.M(args) }  (possibly nested, same accumulator)  ->  let acc := Go.forRange X acc (fun acc k v => acc.M args)
+		if acc, body, ok := t.rangeFold(x); ok && t.spec.LoopStyle == "fold" {
+			return "let " + acc + " := " + body + ";\n" + t.pad() + rest()
+		}
 		// general form: for _, v := range L { body }, body leaves the loop only by `return`:
 		//   match Go.forFirst L (fun v => body-or-none) with | some r => r | none => rest
 		if t.spec.LoopStyle == "forFirst" && x.Value != nil && (x.Key == nil || exprString(x.Key) == "_") {
@@ -1673,6 +1677,48 @@ func (t *tr) convertLoop(as *ast.AssignStmt, next ast.Stmt) (src, v, conv string
 		return
 	}
 	return t.expr(rg.X), exprString(rg.Value), t.expr(set.Rhs[0]), true
+}
+
+// rangeFold: a range loop whose body is one mutator call on a local accumulator (or such a loop again) is a fold.
+func (t *tr) rangeFold(x *ast.RangeStmt) (acc string, lean string, ok bool) {
+	if len(x.Body.List) != 1 {
+		return "", "", false
+	}
+	binder := func(e ast.Expr) string {
+		if e == nil {
+			return "_"
+		}
+		if s := exprString(e); s != "_" {
+			return t.ident(s)
+		}
+		return "_"
+	}
+	k, v := binder(x.Key), binder(x.Value)
+	switch b := x.Body.List[0].(type) {
+	case *ast.ExprStmt:
+		c, isCall := b.X.(*ast.CallExpr)
+		if !isCall {
+			return "", "", false
+		}
+		sel, isSel := c.Fun.(*ast.SelectorExpr)
+		if !isSel {
+			return "", "", false
+		}
+		id, isID := sel.X.(*ast.Ident)
+		if !isID {
+			return "", "", false
+		}
+		acc = t.ident(id.Name)
+		inner := "((" + acc + ")." + sel.Sel.Name + " " + t.args(c.Args) + ")"
+		return acc, "(Go.foldRange " + t.expr(x.X) + " " + acc + " (fun " + acc + " " + k + " " + v + " => " + inner + "))", true
+	case *ast.RangeStmt:
+		a, inner, ok2 := t.rangeFold(b)
+		if !ok2 {
+			return "", "", false
+		}
+		return a, "(Go.foldRange " + t.expr(x.X) + " " + a + " (fun " + a + " " + k + " " + v + " => " + inner + "))", true
+	}
+	return "", "", false
 }
 
 func (t *tr) elseBranch(e ast.Stmt, cont cont) string {
